@@ -272,6 +272,37 @@ func init() {
 						c06Run(w, []rx.Op{valOp(a), valOp(b), valOp(cc), {Kind: rx.OpBinary, B: o1}, {Kind: rx.OpBinary, B: o2}}, nil)
 					}
 				}},
+				{Name: "set-chains", Size: func(*sup.Ctx) int64 { return 2 * (8*8*8*4 + 8*8*8*8*8) }, Run: func(i int64, w *sup.W) {
+					// results of set operations used as operands of further set operations: ((A o1 B) o2 C) and
+					// (((A o1 B) o2 C) o3 D) over sets that are prefixes, suffixes, supersets of and disjoint from
+					// each other, A written literally or bound to a variable; operands are re-read afterwards (c06Run)
+					sets := []rx.Val{rx.SetOf(rx.Int(1)), rx.SetOf(rx.Int(1), rx.Int(2)), rx.SetOf(rx.Int(1), rx.Int(2), rx.Int(3)), rx.SetOf(rx.Int(2), rx.Int(3)),
+						rx.SetOf(rx.Int(3)), rx.SetOf(rx.Int(7)), rx.SetOf(rx.Str("a"), rx.Str("b")), rx.SetOf(rx.Int(7), rx.Int(8), rx.Int(1), rx.Int(2))}
+					sop := func(k int64) rx.Op { return rx.Op{Kind: rx.OpBinary, B: []rx.Binary{rx.Intersection, rx.Union}[k]} }
+					viaVar := i%2 == 1
+					i /= 2
+					var ops []rx.Op
+					a := func(v rx.Val) rx.Op {
+						if viaVar {
+							return valOp(rx.Var("x"))
+						}
+						return valOp(v)
+					}
+					var A rx.Val
+					if i < 8*8*8*4 {
+						A = sets[i%8]
+						ops = []rx.Op{a(A), valOp(sets[i/8%8]), sop(i / 512 % 2), valOp(sets[i/64%8]), sop(i / 1024 % 2)}
+					} else {
+						i -= 8 * 8 * 8 * 4
+						A = sets[i%8]
+						ops = []rx.Op{a(A), valOp(sets[i/8%8]), sop(i / 4096 % 2), valOp(sets[i/64%8]), sop(i / 8192 % 2), valOp(sets[i/512%8]), sop(i / 16384 % 2)}
+					}
+					var bind map[string]rx.Val
+					if viaVar {
+						bind = map[string]rx.Val{"x": A}
+					}
+					c06Run(w, ops, bind)
+				}},
 				{Name: "sequences", Size: func(*sup.Ctx) int64 { return seqSize }, Run: func(i int64, w *sup.W) {
 					var ops []rx.Op
 					if i > 0 {
